@@ -137,6 +137,9 @@ def check_crate(fx, rep, crate, tag):
     rep.rule('R01.3', 'sentinel pairing: the sentinel NUL store at buffer[read cursor] lies on every path from a read-cursor '
                       'advance to the Ok exit; the reader decides "last frame" by comparing the byte after the terminator with 0')
     rep.rule('R01.6', 'cursor reset pairing: the message cursor is set to 0 only on paths that also set the read cursor to 0 (buffer declared empty); the read loop\'s early return relies on it')
+    rep.rule('R01.7', 'received bytes are never dropped: between a non-empty transport read and the read-cursor advance the function cannot return')
+    rep.rule('R01.8', 'end-of-stream is reported only where the transport reported it: Error::UnexpectedEof is constructed only in the receive path of ReadConnection '
+                      '(0-byte read / no terminator in the received bytes), never by an error conversion or another module')
     rep.rule('R01.4', 'growth-when-full (len test + extend) lies between every read-cursor advance and the sentinel store, so '
                       'buffer[read cursor] exists')
     dec = [a for a in anchors if a['cursor_field']]
@@ -173,7 +176,7 @@ def check_crate(fx, rep, crate, tag):
     for body in C.impl_bodies(crate, RC):
         searches = None
         ordinal = 0
-        for b, i, s in C.field_stores(body, RC, cursor):
+        for b, i, s in C.expand_phi_stores(body, C.field_stores(body, RC, cursor)):
             n_stores += 1
             rv = s['rv']
             if rv['k'] == 'use' and mir.op_is_const(rv['op']):
@@ -253,13 +256,17 @@ def check_crate(fx, rep, crate, tag):
         for wb in crate.bodies:
             if wb.in_test:
                 continue
-            zero_m = [(b, i, st) for b, i, st in C.field_stores(wb, RC, cursor) if st['rv']['k'] == 'use' and mir.op_is_const(st['rv']['op'], 0)]
+            zero_m = [(b, i, st) for b, i, st in C.expand_phi_stores(wb, C.field_stores(wb, RC, cursor)) if st['rv']['k'] == 'use' and mir.op_is_const(st['rv']['op'], 0)]
             if not zero_m:
                 continue
-            zero_r = [b for b, i, st in C.field_stores(wb, RC, read_cursor) if st['rv']['k'] == 'use' and mir.op_is_const(st['rv']['op'], 0)]
+            zero_r = [b for b, i, st in C.expand_phi_stores(wb, C.field_stores(wb, RC, read_cursor)) if st['rv']['k'] == 'use' and mir.op_is_const(st['rv']['op'], 0)]
             for b, i, st in zero_m:
                 n6 += 1
                 paired = any(wb.dominates(rb_, b) or wb.postdominates(rb_, b) or rb_ == b for rb_ in zero_r)
+                if not paired:
+                    # `let last = ..; m = if last {0} else {..}; if last { r = 0 }`: both resets hang on the same unchanged condition
+                    mine = C.cond_ids(wb, b)
+                    paired = any(mine and C.cond_ids(wb, rb_) and C.cond_ids(wb, rb_) <= mine | C.cond_ids(wb, rb_) and (C.cond_ids(wb, rb_) & mine) for rb_ in zero_r)
                 rep.check(paired, 'R01.6', '%s|cursor-reset-pairing|%d|%s' % (wb.path, n6, tag), C.where(wb, b, i),
                           'the message cursor is reset together with the read cursor',
                           'the message cursor is set to 0 while the read cursor is not reset on the same path: `message cursor == 0` then no longer means "no complete frame is buffered", '
@@ -289,6 +296,8 @@ def check_crate(fx, rep, crate, tag):
         # (b) EOF test
         ok_b = False
         eof_sites = [b for b, i, s in C.aggr_adt_sites(body, 'error::Error', 'UnexpectedEof')]
+        count_tests = []
+
         def from_read(tr, op):
             q = op_place(op)
             if not q:
@@ -299,9 +308,22 @@ def check_crate(fx, rep, crate, tag):
             r0 = body.reachable(zero_edge)
             if any(e in r0 for e in eof_sites) and ab not in r0 and rb not in r0 and body.dominates(sw, ab):
                 ok_b = True
+                count_tests.append((sw, nz_edge))
         rep.check(ok_b, 'R01.2', '%s|b-eof|%s' % (fk, tag), C.where(body, rb),
                   '0-byte read returns UnexpectedEof and the test dominates the read-cursor advance',
                   'no "bytes read == 0 => end-of-stream" test dominating the read cursor advance')
+        # R01.7 every byte the transport handed over is recorded: from the "bytes read != 0" edge no exit is reachable without the advance
+        n7 = 0
+        for sw, nz_edge in count_tests:
+            n7 += 1
+            r = body.reachable(nz_edge, avoid={ab})
+            leaks = [e for e in body.returns() if e in r and not body.is_cleanup(e)]
+            rep.check(not leaks, 'R01.7', '%s|received-bytes-recorded|%s' % (fk, tag), C.where(body, leaks[0]) if leaks else C.where(body, ab),
+                      'after a non-empty transport read every path records the bytes (read cursor advance) before the function can return',
+                      'the function can return between a non-empty transport read and the read-cursor advance (an error check on the freshly read bytes, an early exit): '
+                      'the bytes just received are dropped from the stream and the following frames are corrupted', {'exit': [C.where(body, e) for e in leaks[:3]]})
+        if not n7:
+            rep.bad('R01.7', '%s|received-bytes-recorded|%s' % (fk, tag), C.where(body, rb), 'no test of the read count dominating the read-cursor advance: cannot establish that received bytes are recorded')
         # (c) terminator test governs loop exit and loop continuation
         term_tests = []
         for sw in range(body.n):
@@ -387,6 +409,42 @@ def check_crate(fx, rep, crate, tag):
                   gdetail)
 
 
+def check_eof_sites(fx, rep, crate, tag):
+    """R01.8 who-may-construct Error::UnexpectedEof"""
+    callers = {}
+    for b in crate.raw_bodies:
+        if b.in_test:
+            continue
+        for blk, t in b.iter_terms('call'):
+            d = t['callee'].get('resolved') or t['callee'].get('def')
+            if d and t['callee'].get('local'):
+                callers.setdefault(d, set()).add(b)
+
+    def in_receive_path(b, depth=0, seen=None):
+        seen = seen or set()
+        if b.path in seen or depth > 4:
+            return False
+        seen.add(b.path)
+        if b.impl_self and RC in b.impl_self:
+            return True
+        root = b.path.split('::{closure')[0]
+        cs = callers.get(root, set()) | callers.get(b.path, set())
+        return bool(cs) and all(in_receive_path(c, depth + 1, seen) for c in cs)
+    n = 0
+    for b in crate.bodies:
+        if b.in_test:
+            continue
+        for blk, i, s in C.aggr_adt_sites(b, 'error::Error', 'UnexpectedEof'):
+            n += 1
+            ok = in_receive_path(b)
+            rep.check(ok, 'R01.8', '%s|eof-site|%s' % (b.path.split('::{closure')[0], tag), C.where(b, blk, i),
+                      'UnexpectedEof is constructed in the receive path of ReadConnection',
+                      'Error::UnexpectedEof is constructed outside the receive path of ReadConnection (%s): a receive can report end-of-stream although the transport '
+                      'has not ended - a frame that merely fails to decode is then indistinguishable from the peer closing the stream' % b.path)
+    if n == 0:
+        rep.bad('R01.8', 'anchor|%s' % tag, '-', 'no construction site of Error::UnexpectedEof found')
+
+
 def _lin(e, cursor, P):
     """linear form of e over {cursor field, P (the search result), 1}; None when e has another shape"""
     import sym as SY
@@ -456,7 +514,7 @@ def check_frame_arithmetic(fx, rep, crate, tag):
               'the slice handed to the JSON decoder is not exactly [message cursor .. message cursor + terminator offset]: start %s, end %s' % (ls, le))
     # (c) cursor advance
     n = 0
-    for blk, i, st in C.field_stores(body, RC, cursor):
+    for blk, i, st in C.expand_phi_stores(body, C.field_stores(body, RC, cursor)):
         if st['rv']['k'] != 'use' or st['rv']['op'].get('k') == 'const':
             continue
         n += 1
@@ -497,6 +555,7 @@ def check(fx, rep, tier):
     for cfg, tag in cfgs:
         crate = fx.crate('zlink_core', cfg)
         check_crate(fx, rep, crate, tag)
+        check_eof_sites(fx, rep, crate, tag)
         check_frame_arithmetic(fx, rep, crate, tag)
     rep.rule('R01.5', 'frame arithmetic: the search runs over buffer[message cursor..read cursor]; with N = message cursor + its result, the decoder gets '
                       'buffer[message cursor..N], the next frame starts at N + 1, the last-frame test reads buffer[N + 1]')
